@@ -1,6 +1,7 @@
 package main
 
 import (
+	"os/exec"
 	"strings"
 	"fmt"
 	"os"
@@ -89,7 +90,11 @@ func cmdCheck(prop, tier string, keep bool) int {
 		fmt.Printf("VIOLATION property=%s replay=%s no-failing-input-found\n", prop, filepath.Join(verifDir, "replays", prop, "no_obligations.json"))
 		violations++
 	}
-	if err := writeEvidence(verifDir, pr, results, violations, known, undecided, nil); err != nil {
+	extra := map[string]interface{}{}
+	if tier == "thorough" && violations == 0 && os.Getenv("GCV_REPO") == "" {
+		extra["selftest_must_fail_corpus"] = runSelftest(prop)
+	}
+	if err := writeEvidence(verifDir, pr, results, violations, known, undecided, extra); err != nil {
 		fmt.Fprintln(os.Stderr, "evidence:", err)
 		return 2
 	}
@@ -139,4 +144,73 @@ func truncate(s string, n int) string {
 		return s[:n] + "...[truncated]"
 	}
 	return s
+}
+
+// runSelftest (thorough tier): every seeded property-breaking change kept under
+// /verif/seeded/<prop>-<n>/ is applied to a scratch copy of /repo (outside /repo and /verif) and
+// the property's obligations are generated and solved against it; each must make at least one
+// named obligation fail. A miss is a weakness of the machinery and is reported in the evidence;
+// it is never a property violation.
+func runSelftest(prop string) []map[string]interface{} {
+	var out []map[string]interface{}
+	seeds, _ := filepath.Glob(filepath.Join(verifDir, "seeded", prop+"-*"))
+	for _, sd := range seeds {
+		rec := map[string]interface{}{"seed": filepath.Base(sd)}
+		scr, err := os.MkdirTemp("", "gcv-selftest-")
+		if err != nil {
+			continue
+		}
+		func() {
+			defer os.RemoveAll(scr)
+			if o, err := exec.Command("rsync", "-a", "--exclude", ".git", repoDir+"/", scr+"/").CombinedOutput(); err != nil {
+				rec["error"] = string(o)
+				return
+			}
+			cmd := exec.Command("patch", "-s", "-p1", "-i", filepath.Join(sd, "patch.diff"))
+			cmd.Dir = scr
+			if o, err := cmd.CombinedOutput(); err != nil {
+				rec["skipped"] = "patch does not apply to the current tree: " + truncate(string(o), 200)
+				return
+			}
+			p2, err := loadProg(scr, repoPkgDirs)
+			if err != nil {
+				rec["caught"] = true
+				rec["by"] = []string{"tree no longer loads: " + truncate(err.Error(), 200)}
+				return
+			}
+			pr := runProperty(p2, prop, "quick", "")
+			wd := newWorkDir()
+			solveAll(pr, wd, 10, false)
+			wd.cleanup()
+			var by []string
+			bl := loadBaseline(verifDir)
+			seen := map[string]bool{}
+			for _, r := range aggregate(pr) {
+				seen[r.Name] = true
+				if r.Status == "violated" || r.Status == "vacuous" || (r.Status == "unknown" && contains(bl[prop], r.Name)) {
+					by = append(by, r.Name)
+				}
+			}
+			for _, f := range pr.Funcs {
+				if u := pr.FuncResults[f].Unsupported; u != "" {
+					by = append(by, f+"/supported")
+				}
+			}
+			for _, n := range bl[prop] {
+				if !seen[n] {
+					by = append(by, n+"/exists")
+				}
+			}
+			if len(by) > 6 {
+				by = by[:6]
+			}
+			rec["caught"] = len(by) > 0
+			rec["by"] = by
+		}()
+		if c, ok := rec["caught"].(bool); ok && !c {
+			fmt.Printf("SELFTEST-MISS %s: seeded change %s is not detected by the %s obligations\n", prop, filepath.Base(sd), prop)
+		}
+		out = append(out, rec)
+	}
+	return out
 }
